@@ -130,6 +130,18 @@ class Run:
     # ---- actions
     def op(self, kind, path, path2=None):
         p = self.real(path)
+        # what the operation is about, captured before it runs (used by the C03 oracle)
+        was_dir = os.path.isdir(p)
+        desc = []
+        if kind == "rename" and was_dir:
+            for r, ds, fs in os.walk(p):
+                for d in ds:
+                    desc.append((os.fsencode(os.path.join(r, d)[len(p):]), True))
+                for f in fs:
+                    desc.append((os.fsencode(os.path.join(r, f)[len(p):]), False))
+        q_real = self.real(path2) if path2 else None
+        replaced = bool(q_real and os.path.lexists(q_real))
+        replaced_dir = bool(q_real and os.path.isdir(q_real))
         try:
             if kind == "touch":
                 if os.path.lexists(p):
@@ -152,6 +164,8 @@ class Run:
                 os.rmdir(p)
             elif kind == "rename":
                 q = self.real(path2)
+                if p == q:
+                    raise FileExistsError(q)      # rename onto itself is a silent no-op: skipped on both sides
                 if os.path.isdir(p) and not os.path.isdir(q) and os.path.lexists(q):
                     raise NotADirectoryError(q)
                 os.rename(p, q)
@@ -161,7 +175,9 @@ class Run:
         except OSError:
             ok = False
             self.skipped += 1
-        ent = {"a": "op", "kind": kind, "path": path, "path2": path2, "ok": ok}
+        ent = {"a": "op", "kind": kind, "path": path, "path2": path2, "ok": ok,
+               "p": os.fsencode(p), "q": os.fsencode(q_real) if q_real else None, "was_dir": was_dir,
+               "descendants": desc, "replaced": replaced and ok, "replaced_dir": replaced_dir}
         self.log.append(ent)
         return ok
 
@@ -407,6 +423,3 @@ def gen_history(rng, n_ops=8, depth=3, paced=True, burst_prob=0.5, outside=True)
     return hist
 
 
-def cut_reads(rng, run: Run):
-    """Replace `drain` by explicit reads with random cuts and random emit/tick interleaving (used by burst modes)."""
-    raise NotImplementedError
